@@ -24,7 +24,7 @@ def run(ctx):
         n = min(chunk, ntr - done)
         tp = ctx.path("tr%d.ndjson" % k)
         ctx.run_drv(drv, ["-seed", str(ctx.seed * 1000 + k), "-n", str(n), "-ops", str(nops), "-out", tp,
-                          "-maxpeers", str(ctx.pick(4, 6)), "-maxpieces", str(ctx.pick(10, 16)), "-nbig", str(max(1, n // 10)), "-nsteal", str(max(1, n // 2))])
+                          "-maxpeers", str(ctx.pick(4, 6)), "-maxpieces", str(ctx.pick(10, 16)), "-nbig", str(max(1, n // 10)), "-nsteal", str(max(1, n // ctx.pick(2, 6)))])
         judge(ctx, tp)
         done += n
         k += 1
